@@ -1,1 +1,2 @@
 import Generated.SettingsTable
+import Generated.Sites
